@@ -241,6 +241,53 @@ theorem lookup_transfer (H : Bytes → Bytes) (p T : Cell) (st acc : PCell) (key
       rw [hs] at h1; cases h1
       exact ⟨_, sT', hlT, h2, by rw [hinfo, (hags.2 0).1, h3]⟩
 
+/-! ### instance 3: a pruned tree and the tree it was pruned from -/
+open TonVerif.Proofs.Prune
+
+/-- `p` is `t` with any set of subtrees replaced by pruned branches (Merkle depth 1) -/
+def PrunedOf (H : Bytes → Bytes) (p t : Cell) : Prop := PruneRel H 1 t p
+
+theorem prunedOf_refs (H : Bytes → Bytes) : ∀ (ts ps : List Cell), PruneRels H 1 ts ps → List.Forall₂ (PrunedOf H) ps ts
+  | [], ps, h => by rw [PruneRels] at h; subst h; exact .nil
+  | t :: ts, ps, h => by
+    rw [PruneRels] at h
+    obtain ⟨p, ps', rfl, h1, h2⟩ := h
+    exact .cons h1 (prunedOf_refs H ts ps' h2)
+
+theorem prunedOf_step (H : Bytes → Bytes) (p t : Cell) (h : PrunedOf H p t) (hk : cellView.kind p = -1) :
+    cellView.kind t = -1 ∧ cellView.bits p = cellView.bits t ∧ List.Forall₂ (PrunedOf H) (cellView.refs p) (cellView.refs t) := by
+  cases t with
+  | mk kind bits refs =>
+    unfold PrunedOf at h
+    rw [PruneRel] at h
+    rcases h with ⟨s, _, _, rfl⟩ | ⟨k, refs', hkind, rfl, hrels⟩
+    · simp [cellView, prunedCell] at hk
+    · simp only [cellView] at hk ⊢
+      subst hk
+      have : k = .ordinary := by simpa [kindOf] using hkind.symm
+      subst this
+      exact ⟨rfl, trivial, prunedOf_refs H refs refs' hrels⟩
+
+/-- the account cell the walk finds in a PRUNED state is the pruning of the account cell of the full state: it has the
+same level-0 hash, whether it is there in full or as a pruned branch -/
+theorem lookup_pruned (H : Bytes → Bytes) (ts ps : Cell) (st acc : PCell) (key : Bits) (aT : Cell) (sa : Spec.SInfo)
+    (hst : PCell.ofCell H ps = some st) (wfp : TreeWF H ps) (hrel : PruneRel H 1 ts ps)
+    (hlk : lookupShardAccount pcellView st key = some acc)
+    (hfull : lookupShardAccount cellView ts key = some aT) (hsa : specInfo H aT = some sa) :
+    acc.info.getHash 0 = some (sa.hashAt 0) := by
+  obtain ⟨a, hla, hoa, wfa⟩ := lookupShardAccount_sim pcellView cellView (ObjOf H) (objOf_step H) st ps key acc ⟨hst, wfp⟩ hlk
+  obtain ⟨aT', hlT, hpr⟩ := lookupShardAccount_sim cellView cellView (PrunedOf H) (prunedOf_step H) ps ts key a hrel hla
+  rw [hfull] at hlT
+  cases hlT
+  obtain ⟨sa', hsa', hinv⟩ := prune_invariant H 1 aT a sa hpr hsa
+  obtain ⟨i, s, hi, hs, hags⟩ := tree_agrees H a wfa
+  rw [hsa'] at hs; cases hs
+  have hinfo : acc.info = i := by
+    have := ofCell_info H a
+    rw [hoa, hi] at this
+    simpa using this
+  rw [hinfo, (hags.2 0).1, (hinv 0 (by omega)).1]
+
 /-! ### building the hypotheses for trees of ordinary cells (used by the non-vacuity examples) -/
 
 theorem shape_ord (bits : Bits) (refs : List Cell) (h : refs.length ≤ 4) (hs : Shapes refs) : Shape (.mk (-1) bits refs) := by
